@@ -138,7 +138,7 @@ class Client(base_client.BaseClient):
                                 run_async=False)
             if self.current_transport == 'websocket':
                 self.ws.close()
-            if not abort:
+            if not abort and self.read_loop_task:
                 self.read_loop_task.join()
             self.state = 'disconnected'
             try:
@@ -399,6 +399,7 @@ class Client(base_client.BaseClient):
             self.ping_timeout = int(open_packet.data['pingTimeout']) / 1000.0
             self.current_transport = 'websocket'
 
+            self.ws = ws
             self.state = 'connected'
             base_client.connected_clients.append(self)
             self._trigger_event('connect', run_async=False)
